@@ -37,7 +37,62 @@ def run(chk, repo):
     from .c02 import column_delegation
     chk.rule("C12-Y7", "declared shape == loaded shape: every return of Array.__getitem__ applies the caller's column indexers", 1)
     chk.attempt(column_delegation, chk, repo, "C12-Y7")
+    chk.rule("C12-Y9", "declared dtype == loaded dtype for an empty selection: arrays created in Array.__getitem__ carry dtype=self.dtype, and a possibly empty list of rows is not converted without it", 1)
+    chk.attempt(y9, chk, repo)
     chk.count("functions", 6)
+
+
+CREATORS = {"numpy.empty", "numpy.zeros", "numpy.ones", "numpy.full"}
+CONVERTERS = {"numpy.asarray", "numpy.array", "numpy.asanyarray", "numpy.fromiter", "numpy.ascontiguousarray"}
+
+
+def y9(chk, repo):
+    """NumPy infers float64 for an empty list: whatever assembles the rows must say which dtype an empty block has"""
+    from ..callgraph import guards_of
+    from ..dataflow import wired
+    am = repo.module("ceos_alos2.array")
+    gi = am.func("Array.__getitem__")
+    where = f"{am.relpath}:Array.__getitem__"
+    flow = Flow(gi)
+    lb = gi.local_bindings()
+
+    def possibly_empty_list(e):
+        if isinstance(e, (ast.ListComp, ast.List)):
+            return True
+        if isinstance(e, ast.Call) and isinstance(e.func, ast.Name) and e.func.id == "list":
+            return True
+        if isinstance(e, ast.Name):
+            return any(k == "assign" and isinstance(v, ast.AST) and possibly_empty_list(v) for k, v in lb.get(e.id, []))
+        return False
+
+    n = 0
+    for c in calls_in(gi):
+        r = repo.resolve_expr(gi, c.func) if isinstance(c.func, (ast.Name, ast.Attribute)) else None
+        fq = r.fq if r is not None and r.kind == "external" else None
+        if fq not in CREATORS | CONVERTERS:
+            continue
+        kw = {k.arg: k.value for k in c.keywords if k.arg}
+        dt = kw.get("dtype")
+        if dt is None and fq in CREATORS | {"numpy.asarray", "numpy.array", "numpy.asanyarray"} and len(c.args) > 1:
+            dt = c.args[1]
+        if fq in CREATORS:
+            n += 1
+            verdict, t = wired(flow, dt, "self.dtype") if dt is not None else ("different", "nothing (float64)")
+            if verdict == "unknown":
+                raise AnalysisError(f"{where}: {short(c, 60)} is created with dtype {t}; not decided")
+            chk.require(verdict == "equal", "C12-Y9", where, f"{short(c, 50)} is created with the declared dtype",
+                        f"{short(c, 60)} is created with dtype {t}, the variable declares self.dtype: the block returned when no line is selected has another dtype than declared", key="getitem:created-dtype")
+        elif c.args and possibly_empty_list(c.args[0]):
+            n += 1
+            lst = c.args[0]
+            names = {x.id for x in ast.walk(lst) if isinstance(x, ast.Name)}
+            guarded = any(pol and (names & {x.id for x in ast.walk(t) if isinstance(x, ast.Name)}) for t, pol in guards_of(c, gi.node))
+            typed = dt is not None and wired(flow, dt, "self.dtype")[0] == "equal"
+            chk.require(guarded or typed, "C12-Y9", where, f"{short(c, 50)} converts a list that is known to be non-empty, or names the dtype",
+                        f"{short(c, 70)} converts the list of selected rows without dtype=self.dtype and without an emptiness guard: for a selection of zero lines NumPy infers float64, "
+                        f"so the loaded dtype differs from the declared one", key="getitem:empty-list-dtype")
+    if n == 0:
+        raise AnalysisError(f"{where}: no array is created or converted here any more; the dtype of an empty selection is not decided")
 
 
 def _is_npdtype_call(e):
